@@ -1,9 +1,14 @@
 """C14 — workspace modes and allocation failure are handled without corruption."""
 import random
 from concurrent.futures import ThreadPoolExecutor
-from vlib import common as C, gen as G, drv as D, hist as H, sweep as S
+from vlib import common as C, gen as G, drv as D, hist as H, sweep as S, ustack as US
 LEVEL = "fault_enumeration"
-EXPLANATION = ("Enumerates, on the real expert driver: (a) workspace query, (b) caller workspace large enough (storage inside the buffer, red zones "
+EXPLANATION = ("Allocator protocol: theorems (Props/C14.lean) over Model/UserStack.lean — for every number of workers, interleaving of their critical sections "
+               "and request sizes the blocks workers hold are pairwise disjoint, inside the caller's buffer and above the L/U arrays (workers_blocks_safe); the aligned real "
+               "work array lies inside its block (alignUp_spec); the two original behaviours provably overlap (orig_free_overlap, orig_align_overlap: defects repaired by "
+               "371e0b6 / 915999e). Tie: the real ?user_malloc/?user_free/p?gstrf_WorkInit/WorkFree are driven through random operation scripts (h_stack, 4 precisions, "
+               "misaligned buffers, failing requests) and every returned offset is diffed with the model (sludrv ustack); real threads hammer WorkInit/WorkFree (ws_race) "
+               "looking for overlapping blocks. Then, on the real expert driver: (a) workspace query, (b) caller workspace large enough (storage inside the buffer, red zones "
                "intact, results bit-identical to the internal-memory run at one thread), (c) caller workspace of every size class below sufficient, "
                "(d) failure of system allocation request k and all later ones for every k up to the number of requests of the call. Acceptable outcomes of "
                "(c),(d): info > n, or exit through the library's abort path with its diagnostic. Anything else (signal, sanitizer report, hang, damaged red "
@@ -39,6 +44,17 @@ def classify(ops, done, rc, err, n):
 
 def run(ctx):
     q = ctx.quick()
+    # allocator model <-> real p?memory.c, and the real-thread overlap search
+    ust, udis = US.correspondence(ctx, 300 if q else 5000)
+    ctx.coverage["allocator_correspondence"] = ust
+    for d in udis[:5]:
+        ctx.violation("ustack-correspondence:" + d["kind"], "user-workspace allocator: real code and Model/UserStack.lean differ (%s prec=%s case=%s line=%s model=%s code=%s)" % (
+            d["kind"], d.get("prec"), d.get("case"), d.get("line"), d.get("model"), d.get("code")), d, no_input=(d["kind"] != "ustack-disagreement"))
+    races = US.thread_race(ctx, 20000 if q else 300000)
+    ctx.coverage["real_thread_workinit_trials"] = races
+    for rc_ in races:
+        if rc_["rc"] != 0:
+            ctx.violation("workspace-overlap:threads", "real threads: work space blocks overlap or leave the buffer: " + rc_["out"][:300], rc_)
     rng = random.Random(ctx.seed * 14 + 1414)
     C.build_lib("asan"); C.build_lib("fault")
     asan = C.build_harness_all_prec("h_drv.c", "asan", precs="ds")
